@@ -200,6 +200,20 @@ fn main() {
         unit_main();
     } else if args.len() >= 3 && args[1] == "fs" {
         fs_main(&args[2]);
+    } else if args.len() >= 6 && args[1] == "compile" {
+        // compile <src> <dst> <hexprefix|-> <derives csv|->
+        let prefix = String::from_utf8(unhex(&args[4]).unwrap()).unwrap();
+        let mut c = peginator_codegen::Compile::file(&args[2]).destination(&args[3]).prefix(prefix);
+        if args[5] != "-" {
+            c = c.derives(args[5].split(',').map(|s| s.to_string()).collect());
+        }
+        match c.run() {
+            Ok(()) => println!("OK"),
+            Err(e) => {
+                println!("ERR {}", format!("{:#}", e).replace('\n', " "));
+                std::process::exit(1);
+            }
+        }
     } else {
         eprintln!("usage: pvunit unit | pvunit fs <dir>");
         std::process::exit(2);
